@@ -286,12 +286,14 @@ class C15(Suite):
             except Exception as e:  # noqa: BLE001
                 return [[{"err": "unmodelled: " + type(e).__name__}]]
         store = self.base.build(b)
+        # group 1: the rewritings that keep the variable names (region of the tie theorem
+        # C15_main_partial); group 2: the base again (the same observation) and the renamed query
         g1 = [_q(store, text)]
         g1.append(_q(store, render(dict(b, q=case["perm"]))))
         g1.append(_q(store, render(dict(b, q=case["swap"]))))
         inv = {w: int(v) for v, w in case["ren"]["map"].items()}
-        g1.append(_q(store, render(dict(b, q=case["ren"]["q"])), ren=inv))
-        groups = [g1]
+        g2 = [g1[0], _q(store, render(dict(b, q=case["ren"]["q"])), ren=inv)]
+        groups = [g1, g2]
         if case["init"]:
             v, t = case["init"]["var"], case["init"]["term"]
             qv = ["group", b["q"][1] + [["values", [v], [[t]]]]]
@@ -306,9 +308,11 @@ class C15(Suite):
         vs = [
             ctuple(self.base.coq_case(dict(b, q=case["perm"])), "[]"),
             ctuple(self.base.coq_case(dict(b, q=case["swap"])), "[]"),
-            ctuple(self.base.coq_case(dict(b, q=case["ren"]["q"])), clist(ctuple(cN(a), cN(c)) for a, c in inv)),
         ]
-        groups = [c_group(base, vs, 0, "GNormal")]
+        vr = [ctuple(self.base.coq_case(dict(b, q=case["ren"]["q"])), clist(ctuple(cN(a), cN(c)) for a, c in inv))]
+        groups = [c_group(base, vs, 0, "GNormal"), c_group(base, vr, 0, "GNormal")]
+        if case.get("_first_only"):
+            return clist(groups[:1])
         if case["init"]:
             v, t = case["init"]["var"], case["init"]["term"]
             qv = ["group", b["q"][1] + [["values", [v], [[t]]]]]
@@ -316,7 +320,8 @@ class C15(Suite):
         return clist(groups)
 
     def coq_obs(self, obs):
-        return clist(clist(self.base.coq_obs(o) for o in g) for g in obs)
+        # the implementation's observation fills every slot
+        return clist(clist("(Some " + self.base.coq_obs(o) + ")" for o in g) for g in obs)
 
     def on_timeout(self, case):
         return [[{"err": "timeout"}]]
@@ -328,6 +333,7 @@ class C15(Suite):
         return {"with_initBindings": int(bool(case["init"])), "dataset": int(case["base"]["ds"]),
                 "distinct": int(case["base"].get("modifier") == "DISTINCT"),
                 "observations": sum(len(g) for g in obs),
+                "groups_all_spellings_raise": sum(1 for g in obs if g and all("err" in o for o in g)),
                 "nonempty": int(bool(obs) and bool(obs[0][0].get("sel")))}
 
     def shrink(self, case):
@@ -598,7 +604,8 @@ class C15Same(Suite):
         return clist(groups)
 
     def coq_obs(self, obs):
-        return clist(clist(self.base.coq_obs(o) for o in g) for g in obs)
+        # the implementation's observation fills every slot
+        return clist(clist("(Some " + self.base.coq_obs(o) + ")" for o in g) for g in obs)
 
     def on_timeout(self, case):
         return [[{"err": "timeout"}]]
@@ -609,6 +616,7 @@ class C15Same(Suite):
     def features(self, case, obs):
         f = {"dataset": int(case["base"]["ds"]), "steps": len(case["seq"]),
              "observations": sum(len(g) for g in obs),
+             "groups_all_spellings_raise": sum(1 for g in obs if g and all("err" in o for o in g)),
              "init_answers_nonempty": sum(1 for (gi, ib), g in zip(case["seq"], obs[2:]) if ib is not None and g[0].get("sel")),
              "nonempty": int(bool(obs) and bool(obs[0][0].get("sel")))}
         return f
@@ -776,14 +784,37 @@ class C15Prepared(Suite):
         return self.same.shrink(case)
 
 
-SUITES = [C15(), C15Same(), C15Prepared()]
+class C15Tie(C15):
+    """The generator of "variants", its first group only (base, BGPs shuffled, operands swapped), measured
+    against the region of the tie theorem C15_main_partial: the trigger of this suite is "kf15 fires, or the
+    case is outside tied15" (id 100), so that evidence.coverage.trigger_hits["tie_share"] /
+    distribution["tie_share.cases"] is the share of generated rewriting groups the theorem does not cover."""
+    name = "tie_share"
+    imports = "From RV Require Import Sparql.VariantProofs.\nSet Printing Width 1000000."
+    kf = "(fun c => if N.eqb (kf15 c) 0 then (if tied15 c then 0%N else 100%N) else kf15 c)"
+    quick_n = 60
+    thorough_n = 1500
+
+    def coq_case(self, case):
+        return super().coq_case(dict(case, init=None, _first_only=True))
+
+    def coq_obs(self, obs):
+        return super().coq_obs(obs[:1])
+
+    def features(self, case, obs):
+        return {"cases": 1}
+
+
+SUITES = [C15(), C15Same(), C15Prepared(), C15Tie()]
 
 TRUSTED = [
     "Coq 8.16.1 kernel and vm_compute",
     "harness/c15.py: the rewritings of the query AST (permutation, operand swap, renaming and its inverse applied to the answers), "
     "the de-duplication of the plain answer used as the reference for DISTINCT/REDUCED (on the harness's own canonical rows, never on "
     "rdflib's hash/eq), harness/c04.py (rendering, algebra conversion, observation)",
-    "coq/Sparql/Variants.v: equality of all observations of a group as the reading of 'does not depend on how the query is written, prepared or stored'",
+    "coq/Sparql/Variants.v: 'every group holds the demanded number of observations (1 + variants + repetitions; 2 for initBindings groups) "
+    "and all of them are equal' as the reading of 'does not depend on how the query is written, prepared or stored'; the harness fills every "
+    "slot of the implementation's observation (Some), the model leaves the slots it has no counterpart for empty (None)",
     "coq/Sparql/Prepared.v: the algebra tree (annotations and triple-pattern order included) as THE state a prepared Query object keeps; "
     "harness/c15.py C15Prepared.snapshot: conversion of the live object's tree after every evaluation",
 ]
@@ -796,11 +827,16 @@ ASSUMPTIONS = [
     "REDUCED is only required to have the same SET of solutions as DISTINCT (its cardinalities are implementation-defined and order-dependent in rdflib)",
     "ReadOnlyGraphAggregate is exercised with disjoint member graphs and without property paths (finding F16 concerns paths, model of C11)",
     "SELECT [DISTINCT] * queries only; the vocabulary of C04",
+    "the tie C15_main_partial covers groups of rewritings that keep the variable names (BGP permutation, UNION swap, join swap, the last two "
+    "of a join chain swapped; at any depth outside expressions) when base and variant lie in the proved C04 fragment over data without boolean "
+    "literals; suite tie_share measures the share; renaming, prefixes, back ends, prepared objects, initBindings: runs only",
+    "C15_prepared_pure_glue / C15_prepared_spec_model_glue hold by definition of the state machine (its step returns the state it was given): "
+    "the content of 'evaluation does not change the prepared object' is in the snapshots of suite prepared_state, not in a theorem",
 ]
 RULE = ("suite variants: every generated C04 SELECT case (12 % DISTINCT; 10 % 'twin unions' whose two branches hold the same triple patterns "
         "grouped and ordered differently, so that each solution arrives twice with its variables bound in different orders), posed (a) with "
         "the triple patterns of every BGP shuffled, (b) with union branches and one pair of adjacent join operands per group swapped, (c) with "
-        "variables renamed by a random permutation, (e) with initBindings against a VALUES row, and in 8 % with two prefixes for one namespace; "
+        "variables renamed by a random permutation (observed in a group of its own together with the base), (e) with initBindings against a VALUES row, and in 8 % with two prefixes for one namespace; "
         "suite same_query (no trigger predicate): prefix/BASE spellings, SimpleMemory / AuditableStore(Memory) / ReadOnlyGraphAggregate of two "
         "disjoint graphs, AuditableStore(SimpleMemory) and an aggregate of SimpleMemory graphs (15 % of the cases ask a variable predicate "
         "between two bound ends), DISTINCT and REDUCED against the harness-de-duplicated plain answer, two evaluations of one prepared object "
@@ -808,6 +844,7 @@ RULE = ("suite variants: every generated C04 SELECT case (12 % DISTINCT; 10 % 't
         "ends are the pre-bound variables), and a sequence of 6-7 evaluations of ONE "
         "prepareQuery object on two graphs, with no / one / another initBindings (30 % of the cases are nested-group FILTER/BIND queries whose "
         "expression mentions a variable that is out of scope there), each step compared with freshly parsed text given the same initBindings; "
+        "suite tie_share: the generator of variants, first group only (base, shuffled, swapped), trigger = kf15 or outside tied15; "
         "suite prepared_state: the same cases; after prepareQuery, after every step of the sequence, inside and after the interleaving the "
         "tree of the live Query object is converted and must equal the tree of a fresh prepareQuery; "
         "non-trivial = some observation has a solution")
